@@ -208,10 +208,19 @@ def case_pair(case):
     vb = "u" if variant == "u" else "t"
     a, ra, ta = build(sa, depth, va, dflt, 0)
     b, rb, tb = build(sb, depth, vb, dflt, 1)
+    # rank formats are not content: "tUl" declares every rank of the left tensor uncompressed, "tUU" of both
+    # (the right tensor's leaf shape is one larger, so the two present different coordinate ranges)
+    if variant in ("tUl", "tUU"):
+        feats.add("fmt:U-left" if variant == "tUl" else "fmt:U-both")
+        for r_ in ta.getRankIds():
+            ta.setFormat(r_, "U")
+        if variant == "tUU":
+            for r_ in tb.getRankIds():
+                tb.setFormat(r_, "U")
     # what is compared: the objects themselves (two tensors: Tensor.__eq__, which compares the owned roots);
     # with extras also the owned roots directly, != and the reversed order on the same objects
     pairs = [("eq", a, b)] if variant != "ut" else [("eq", ra, rb)]
-    if variant == "t" and extras:
+    if variant in ("t", "tUl", "tUU") and extras:
         pairs.append(("root-eq", ra, rb))
     s0 = (_snap(ra, ta), _snap(rb, tb))
     for tag, x, y in pairs:
@@ -915,7 +924,8 @@ def run(ctx):
     # (dims, alphabet, variants, leaf default, extras)
     singles = [((4,), A12, UT, 0), ((2, 2), A12, UT, 0), ((3,), A7, UT, 7), ((2, 2), A7, UT, 7),
                ((2, 2, 2), A1, U if q else UT, 0)]
-    pairs = [((3,), A7, ALLV, 7, 1), ((3,), A12, ALLV, 0, 1), ((4,), A12, UT, 0, 1),
+    pairs = [((3,), A12, ("tUl", "tUU"), 0, 1), ((2, 2), A1, ("tUl", "tUU"), 0, 1), ((3,), A7, ("tUU",), 7, 1),
+             ((3,), A7, ALLV, 7, 1), ((3,), A12, ALLV, 0, 1), ((4,), A12, UT, 0, 1),
              ((2, 2), A70, UT, 7, 1), ((2, 2), A1, ALLV, 0, 1), ((2, 2), A12, UT, 0, 0),
              ((2, 2, 1), A1, UT if q else ALLV, 0, 0)]
     capped = [] if q else [((2, 2), A12, ("ut",), 0, 1, 50), ((2, 2, 1), A12, UT, 0, 0, 90),
